@@ -118,6 +118,8 @@ def fault_stream(ctx, rng, schemas):
                 lines.append("mktrack t %s" % G.snap_txt(G.g_snapshot(rng, 600 + c, "quick", valid=True))); meta.append(("mk",))
             for k in range(8):
                 x = G.g_snapshot(rng, 700 + 10 * c + k, "quick", valid=rng.random() < 0.85)
+                if k == 7 and x["relative_path"] is not None:
+                    x["relative_path"] = other["relative_path"]     # UNIQUE(path) from 1.11.1: refused, `o` untouched
                 t = "t" if upd else "n%d" % k
                 watch = ["o"] + (["t"] if upd else [])
                 for w in watch:
@@ -176,6 +178,19 @@ def fault_stream(ctx, rng, schemas):
             if fired:
                 hist["fired"] += 1
                 hist["fired_at"][str(k)] = hist["fired_at"].get(str(k), 0) + 1
+            # frame: whatever the outcome, the other track is observed exactly as before
+            hist["frame_checks"] = hist.get("frame_checks", 0) + 1
+            oth = [what for (ph, kk, w, what), val in obs.items()
+                   if ph == "before" and kk == k and w == "o" and obs.get(("after", k, "o", what)) != val]
+            if oth:
+                viol.append({"tag": "oracle", "signature": None,
+                             "header": {"kind": "history", "part": "C01_v1",
+                                        "what": "%s (%s) changed another track (%s of it) on %s"
+                                                % (kind, res.split()[0], oth[0], sch)},
+                             "body": body + ["note: snap o", "note: v1.rows o"]})
+                continue
+            if k == 7 and not fired and G.SCHEMAS.index(sch) >= G.UNIQUE_PATH_FROM and res.startswith("throw sqlite_error"):
+                hist["unique_path_refused"] = hist.get("unique_path_refused", 0) + 1
             if res.startswith("throw"):
                 changed = [(w, what) for (ph, kk, w, what), val in obs.items()
                            if ph == "before" and kk == k and obs.get(("after", k, w, what)) != val]
